@@ -32,7 +32,7 @@ func init() {
 		Quick: 6000, Thorough: 600000,
 		Run:        runC07,
 		Rule:       "one run = one generated (type, value) whose encoding E decodes; evaluations = individual faulted decodes: every prefix of E (exhaustive), 6 byte substitutions at every offset (all offsets up to 512 bytes, sampled beyond), every length prefix at every nesting level inflated to 13 values in minimal and padded form, every varint re-encoded over-long, wire-type swaps of every declared field, a foreign field of each wire type and of 3 undeclared numbers inserted at every field boundary of every nesting level, decodes into a different type, random strings. non-trivial = E has at least 2 bytes; distinct = distinct hash of (type, E)",
-		FaultKinds: []string{"tear(prefix)", "rot(byte-substitution)", "length-inflation", "overlong-varint", "overflow-varint(10th byte > 1)", "wire-type-swap", "foreign-field:varint", "foreign-field:fixed64", "foreign-field:varlen", "foreign-field:fixed32", "foreign-field-nested-level", "cross-type-decode", "random-bytes", "scaling-probe(n vs 8n elements)", "deep-nesting-probe", "cut-inside-length-prefix", "cut-inside-embedded-message"},
+		FaultKinds: []string{"tear(prefix)", "tear(prefix, rest of the message behind len)", "rot(byte-substitution)", "length-inflation", "overlong-varint", "overflow-varint(10th byte > 1)", "wire-type-swap", "foreign-field:varint", "foreign-field:fixed64", "foreign-field:varlen", "foreign-field:fixed32", "foreign-field-nested-level", "cross-type-decode", "random-bytes", "scaling-probe(n vs 8n elements)", "deep-nesting-probe", "cut-inside-length-prefix", "cut-inside-embedded-message"},
 		ProbeNames: []string{"messages", "roundtrip-precondition-failed(skipped)", "scan-checked", "scan-vs-skip-checked", "alloc-precise-samples", "levels>1", "torn-input-accepted-as-value", "torn-input-rejected", "rot-accepted", "rot-rejected", "inflated-rejected", "E>=128B", "E>=1KiB"},
 		Real:       []string{"proto.Unmarshal, proto.Parse, proto.Scan, RawValue methods compiled from /repo's working tree with sync and sync/atomic redirected to the shim (deterministic simulated sync.Pool, pristine library state before every run)"},
 		Model:      []string{"storage/transport medium: fault operators over the encoded bytes", "reference protobuf wire parser and schema walker (verifsim/ref) used to locate lengths, varints and field boundaries and to build foreign fields"},
@@ -74,7 +74,11 @@ type c07Ctx struct {
 	ty      *simType
 	precise bool
 	calls   int
+	// beyond, when set, is what lies behind the end of the next input within its capacity
+	beyond []byte
 }
+
+var c07Arena []byte
 
 // decode runs Unmarshal on in with the no-panic and allocation oracles; it
 // returns the decoded value and the error.
@@ -83,7 +87,19 @@ func (c *c07Ctx) decode(in []byte, op string) (reflect.Value, error, bool) {
 	r.Evaluations++
 	c.calls++
 	x := reflect.New(c.ty.rt)
-	buf := append(make([]byte, 0, len(in)), in...) // exact capacity: reads past len fault in bounds checks
+	// the input always sits at the same address (the caller's one receive buffer,
+	// new content every time), with exact capacity: reads past len fault in bounds checks
+	if cap(c07Arena) < len(in) {
+		c07Arena = make([]byte, 2*len(in)+64)
+	}
+	buf := c07Arena[:len(in):len(in)]
+	copy(buf, in)
+	if c.beyond != nil && cap(c07Arena) >= len(in)+len(c.beyond) {
+		// a prefix the caller sliced off in place (msg[:k]): the rest of the message
+		// is still there, behind len, inside the capacity
+		buf = c07Arena[:len(in)]
+		copy(c07Arena[len(in):], c.beyond)
+	}
 	precise := c.precise && c.calls%61 == 0
 	var before uint64
 	var ms runtime.MemStats
@@ -487,11 +503,23 @@ func runC07(r *core.Run) {
 		}
 	}
 	for k := 0; k < len(e); k++ {
-		_, err, ok := c.decode(e[:k], "torn")
+		x0, err, ok := c.decode(e[:k], "torn")
 		if !ok {
 			return
 		}
 		r.Fault("tear(prefix)")
+		// the same prefix sliced off in place: what lies behind len(b) is not input
+		c.beyond = e[k:]
+		x1, err1, ok := c.decode(e[:k], "torn-in-place")
+		c.beyond = nil
+		if !ok {
+			return
+		}
+		r.Fault("tear(prefix, rest of the message behind len)")
+		if (err == nil) != (err1 == nil) || (err == nil && !reflect.DeepEqual(x0.Interface(), x1.Interface())) {
+			r.Fail("beyond-len", "bytes-behind-len-change-the-result", "the first %d bytes of a %d-byte message decode to err=%v when the slice has no spare capacity and to err=%v (or another value) when the rest of the message lies behind len(b) within its capacity (type %s)\ninput=%x", k, len(e), err, err1, ty.name, clip(e, 300))
+			return
+		}
 		if inLen[k] {
 			r.Fault("cut-inside-length-prefix")
 		}
